@@ -441,6 +441,20 @@ func runC43(c *Ctx) {
 					return false, "a type with MarshalJSON but no UnmarshalJSON must be rejected (its payload would restore as zero values)"
 				}
 			}
+			// a path that trusts the type's own JSON (accepts it without the
+			// data-loss test and without looking at its fields) must have seen
+			// MarshalJSON on the VALUE method set: State is marshalled by value, so
+			// a pointer-receiver MarshalJSON is never called and the default
+			// encoder drops the unexported fields
+			trusted := r.Out.Kind == "return" && len(r.Out.Vals) == 1 && r.Out.Vals[0].Str == "nil" &&
+				len(r.Calls(func(e *Effect) bool { return e.Callee != nil && e.Callee.Name() == "serializesToEmpty" })) == 0
+			if trusted {
+				tParam := g.Type().(*types.Signature).Params().At(0).Name()
+				onValue := r.Atom(func(a *Atom) bool { return a.IsBool && a.B && strings.HasPrefix(a.Key, tParam+".Implements(jsonMarshalerType)") })
+				if onValue == nil {
+					return false, "a struct is accepted as having custom JSON without MarshalJSON being present on its value method set (State is marshalled by value: a pointer-receiver MarshalJSON is never invoked and unexported fields are silently dropped)"
+				}
+			}
 			return true, ""
 		})
 		// per-field obligations
